@@ -148,7 +148,16 @@ def call_function(it, fv: FuncVal, args, kwargs, with_body=None):
         if isinstance(fv.node, ast.Lambda):
             return it.eval(fv.node.body, fr)
         if with_body is None and _is_generator(fv.node):
-            raise Unsupported(f"generator function {fv.qualname} called outside `with`")
+            # A generator called as a plain function is run eagerly and its yields are collected in
+            # a list (iterators are lists in this engine). Assumes the generator's body has no
+            # effects whose interleaving with the consumer matters; `send`/`throw` are not modelled.
+            out: list = []
+            fr.with_body = lambda val: out.append(val)
+            try:
+                it.exec_block(fv.node.body, fr)
+            except _Return:
+                pass
+            return out
         try:
             it.exec_block(fv.node.body, fr)
         except _Return as r:
